@@ -45,6 +45,19 @@ type embO struct {
 }
 type dynK struct{ V interface{} }
 
+// a nullable column type in the style of gobuffalo/nulls: Interface() has a value receiver
+type nullS struct {
+	S     string
+	Valid bool
+}
+
+func (n nullS) Interface() interface{} {
+	if !n.Valid {
+		return nil
+	}
+	return n.S
+}
+
 type docB struct{ ID []byte }
 type docS struct{ Slug []string }
 type docM struct{ ID map[string]int }
@@ -70,6 +83,8 @@ func c04extra() map[string]interface{} {
 		// uncomparable dynamic value
 		"xnilfn": (func() int)(nil), "xnilstrer": (*strer)(nil), "xnilhtmler": (*htmlerT)(nil), "xembed": embO{Y: "y"}, "xpembed": &embO{Y: "y"}, "xdynkey": dynK{V: []int{1}},
 		"xidbytes": docB{ID: []byte{1, 2}}, "xidzero": docB{}, "xslugs": &docS{Slug: []string{"a"}}, "xidmap": docM{ID: map[string]int{"a": 1}}, "xidlist": []interface{}{docB{ID: []byte{3}}},
+		// nullable values: set, unset, and typed nil pointers to them (alone and as elements)
+		"xnull": nullS{S: "n", Valid: true}, "xnullunset": nullS{}, "xpnull": &nullS{S: "n", Valid: true}, "xnilnull": (*nullS)(nil), "xnulls": []interface{}{(*nullS)(nil), nullS{}},
 	}
 }
 
